@@ -55,6 +55,13 @@ def cases(tier):
             # bare: the message is the single argument itself, keyed by the method name
             styles = ("wrapped", "wrapped", "wrapped", "bare")
         m = draw(spec.methods(U, name="m0", styles=(draw(st.sampled_from(styles)),), xml=False))
+        if m["style"] == "wrapped" and U.get("same_named") and draw(st.booleans()):
+            # both of two same-named classes (different namespaces) travel in one request
+            occ1 = {"min": 0, "max": 1, "nillable": True}
+            a_, b_ = U["same_named"]
+            m["args"] = [["p", {"k": "ref", "n": a_, "occ": dict(occ1)}],
+                         ["q", {"k": "ref", "n": b_, "occ": dict(occ1)}]] + \
+                [x for x in m["args"] if x[0] not in ("p", "q")][:2]
         if m["style"] == "wrapped" and len(m["args"]) >= 2 and draw(st.integers(0, 3)) == 0:
             # _in_arg_names: some arguments (not only the last one) have another name on the wire
             k = draw(st.integers(1, len(m["args"])))
